@@ -292,7 +292,7 @@ func (ma *mergeAnalysis) ruleR19(c *Ctx) {
 		bad := ""
 		for _, cl := range mf.claims {
 			if instrCanReach(w.instr, cl.call) {
-				bad = fmt.Sprintf("claim %s at %s can run after this commit", cl.callee.Name(), c.pos(cl.call.Pos()))
+				bad = fmt.Sprintf("claim %s at %s can run after this commit", cl.name(), c.pos(cl.call.Pos()))
 			}
 		}
 		for _, r := range returnsOf(mf.fn) {
